@@ -230,6 +230,7 @@ func main() {
 			}
 		}
 	}
+	enginePart(r)
 	// a block without transactions: the statement quantifies over 0..n transactions; a node never formats one
 	r.Floor("blocks", 10)
 	r.Floor("mutants", 1500)
